@@ -67,6 +67,9 @@ ERR_UNIT = ['EmptyHiddenAVP', 'MisalignedHiddenAVP', 'InvalidReservedBits', 'Inc
 ctor_fns = {('DecodeError', n): n + ' %s' for n in ERR_ARGS}
 enum_values = {('DecodeError', n): n for n in ERR_UNIT}
 enum_values.update({('MessageFlagType', 'Control'): 'true', ('MessageFlagType', 'Data'): 'false'})
+for _i, _e in enumerate(['EtOk', 'NoControlConnectionExists', 'WrongLength', 'OutOfRangeOrBadReserved', 'InsufficientResources',
+                         'InvalidSessionId', 'Generic', 'TryAnotherDestination', 'UnknownMandatoryAvp']):
+    enum_values[('ErrorType', 'Ok' if _e == 'EtOk' else _e)] = _e
 MT = ['StartControlConnectionRequest', 'StartControlConnectionReply', 'StartControlConnectionConnected',
       'StopControlConnectionNotification', 'Hello', 'OutgoingCallRequest', 'OutgoingCallReply', 'OutgoingCallConnected',
       'IncomingCallRequest', 'IncomingCallReply', 'IncomingCallConnected', 'CallDisconnectNotify', 'WanErrorNotify', 'SetLinkInfo']
